@@ -77,12 +77,12 @@ def make_defaults(rng, n):
         check = rng.choice(CHECKS)
         kind = rng.choice(['plain', 'plain', 'removal', 'renamed', 'changed'])
         desc = hostile_text(rng) if rng.random() < 0.85 else None
-        reason = hostile_text(rng) or 'because'
+        reason = rng.choice([hostile_text(rng) or 'because', hostile_text(rng), '', None, '  ', 'because'])
         since = rng.choice(['N', '2025.1', 'Wallaby (13.0.0)', '1.0 # x', 'v: 2'])
         scope = rng.choice([None, None, ['project'], ['system', 'project']])
         kw = {'scope_types': scope}
         if kind == 'removal':
-            kw.update(deprecated_for_removal=True, deprecated_reason=reason, deprecated_since=since)
+            kw.update(deprecated_for_removal=True, deprecated_reason=reason if reason is not None else '', deprecated_since=since)
         elif kind == 'renamed':
             kw['deprecated_rule'] = policy.DeprecatedRule('old%d:%s' % (i, name[5:]), rng.choice(CHECKS), deprecated_reason=reason, deprecated_since=since)
         elif kind == 'changed':
